@@ -32,5 +32,5 @@ extern double mpt_tick_log10(int val)
 	if (val < 2 || val > 9) {
 		return NAN;
 	}
-	return logs[val];
+	return logs[val - 2];
 }
